@@ -209,6 +209,26 @@ def branch_of(conds, occ):
     return -1
 
 
+def arm_value(n, conds, idx, occ):
+    """value of arm idx of match n on the occurrence value, when the arm body is a pure expression the interpreter can
+    evaluate to a bool/int; None otherwise"""
+    arms = [a for a in n["arms"] if absint.default_cfg_all(a)]
+    if idx >= len(arms):
+        return None
+    wrapped = any(x.get("p") in ("Some", "None") for x in vf.walk(arms[idx]["pat"]))
+    val = vt.occ_val(occ)
+    it = absint.Interp()
+    try:
+        m = it.match(val if wrapped else val[1], arms[idx]["pat"])
+        if m is None:
+            return None
+        it.scopes[-1].update(m)
+        v = it.eval(arms[idx]["body"])
+    except (absint.Unknown, absint.Return, absint.Break, absint.Continue):
+        return None
+    return v if isinstance(v, (bool, int)) else None
+
+
 def r_occursites(ctx):
     rid = "C09.occursites"
     ctx.rule(rid, "in every match / if-let chain / matches! in src/validator whose patterns name Occur variants, an occurrence shorthand "
@@ -230,6 +250,12 @@ def r_occursites(ctx):
             for a, b in PAIRS:
                 ba, bb = branch_of(conds, a), branch_of(conds, b)
                 res["%s~%s" % (vt.occ_name(a), vt.occ_name(b))] = (ba, bb)
+                if ba != bb and kind == "match" and ba >= 0 and bb >= 0:
+                    # different arms whose bodies are pure expressions with the same value agree (a classification helper)
+                    va, vb = arm_value(n, conds, ba, a), arm_value(n, conds, bb, b)
+                    if va is not None and va == vb:
+                        res["%s~%s" % (vt.occ_name(a), vt.occ_name(b))] = (ba, bb, "same value %r" % (va,))
+                        continue
                 if ba != bb:
                     bad.append("%s->branch %d but %s->branch %d" % (vt.occ_name(a), ba, vt.occ_name(b), bb))
             ctx.site(rid, key, file, n["l"], {"variants": sorted(vs), "branches": res})
@@ -276,12 +302,72 @@ def r_prelude(ctx):
             ctx.violation(rid, "%s|unspecified" % name, MOD, preds[name][1].line, "predicate %s has no entry in spec/rfc8610_prelude.json" % name)
 
 
+BW_OCCS = [None, ("Optional", None, None), ("ZeroOrMore", None, None), ("OneOrMore", None, None), ("Exact", 0, 1), ("Exact", None, 1),
+           ("Exact", 0, None), ("Exact", 1, None), ("Exact", 2, 3)]
+
+
+def r_bareword(ctx, rid="C09.bareword"):
+    ctx.rule(rid, "visit_identifier (JSON and CBOR) on a map document, as a member key, for an identifier that is neither a rule, a prelude "
+                  "type nor a key-domain type (a bareword key `k:`): under every occurrence form (none, ?, *, +, 0*1, *1, 0*, 1*, 2*3) the "
+                  "identifier is handed to visit_value as the text key exactly once and that result is returned — a bareword key keeps "
+                  "its meaning whatever occurrence precedes it (abstract evaluation with scripted classification predicates)", floor=18)
+    f = ctx.facts
+    for which in ("json", "cbor"):
+        fi = vt.visitor_fn(f, which, "visit_identifier")
+        for occ in BW_OCCS:
+            key = "%s|%s" % (which, vt.occ_name(occ) if occ else "none")
+            doc = ("enum", "Value::Object" if which == "json" else "Value::Map", [absint.OPAQUE])
+            obj = vt.self_obj(which, doc)
+            st = obj[2]["state"][2]
+            st.update({"occurrence": vt.occ_val(occ) if occ else ("None",), "is_member_key": True, "is_colon_shortcut_present": True,
+                       "data_location": ("str", ""), "visited_rules": absint.PyMap(), "is_cut_present": False})
+            obj[2].update({"validating_value": False, "cut_value": ("None",), "claimed_map_entries": absint.MutList(),
+                           "map_entry_candidates": ("None",), "object_value": ("None",), "validated_keys": ("None",)})
+            seen = []
+
+            def visit_value(run, node, recv, seen=seen):
+                a = run.it.eval(node["a"][0])
+                seen.append(a)
+                return ("Ok", ("tuple", []))
+            scripts = {"visit_value": visit_value, "find_single_map_entry": lambda run, node, recv: ("None",),
+                       "in_standard_prelude": lambda run, node, recv: ("None",), "contains": lambda run, node, recv: False}
+            r = vt.Run(f, which, "default", {}, {"self": obj, "ident": ("enum", "Identifier", {"ident": ("str", "k"), "socket": ("None",)})}, scripts=scripts)
+            base = r.on_call
+
+            def on_call(kind, name, node, args, recv, base=base):
+                if kind == "fn" and name:
+                    b = name.split("::")[-1]
+                    if b.startswith("is_ident_") or b.startswith("ident_"):
+                        return ("None",) if b == "ident_numeric_kind" else False
+                    if b in ("rule_from_ident",):
+                        return ("None",)
+                    if b == "type_choice_types_from_ident":
+                        return absint.MutList()
+                    if b == "lookup_ident":
+                        return ("enum", "Token::IDENT", [("str", "k"), ("None",)])
+                return base(kind, name, node, args, recv)
+            r.it.on_call = on_call
+            try:
+                res = r.run(fi.node)
+            except absint.Unknown as e:
+                ctx.incomplete_msg(rid, "%s: %s" % (key, e))
+                continue
+            texts = [a for a in seen if isinstance(a, tuple) and a[:1] == ("enum",) and a[1].endswith("Value::TEXT") and a[2] and a[2][0] in (("str", "k"), "k")]
+            ctx.site(rid, key, fi.file, fi.line, {"visit_value_calls": len(seen), "result": repr(res)[:40], "errors": r.errors})
+            if len(seen) != 1 or len(texts) != 1 or res != ("Ok", ("tuple", [])) or r.errors:
+                ctx.violation(rid, key, fi.file, fi.line,
+                              "%s visit_identifier on a map with bareword key `k` under occurrence %s: visit_value called %d time(s) with the text key "
+                              "(expected exactly once), result %r, %d error(s) — the entry is ignored or misread"
+                              % (which, vt.occ_name(occ) if occ else "none", len(texts), res, r.errors))
+
+
 def run(ctx):
     ctx.guarded("C09.eqne", r_eqne)
     ctx.guarded("C09.range", r_range)
     ctx.guarded("C09.occur", r_occur)
     ctx.guarded("C09.repeatcount", r_repeatcount)
     ctx.guarded("C09.occursites", r_occursites)
+    ctx.guarded("C09.bareword", r_bareword)
     ctx.guarded("C09.prelude", r_prelude)
     ctx.guarded("C09.ctrlrestore.json", lambda c: cv.ctrlrestore_rule(c, "C09j", "json"))
     ctx.guarded("C09.ctrlrestore.cbor", lambda c: cv.ctrlrestore_rule(c, "C09c", "cbor"))
